@@ -44,6 +44,8 @@ PARTIAL = [
     'orthogonal to the fitted terms); that ZernikeOPD passes exactly Wavefront.data / distribution is checked on generated lenses, not proved',
 ]
 
+SOLVER_FTOL = 1e-8      # scipy.optimize.least_squares default ftol = xtol = gtol
+SOLVER_K = 100          # safety factor on the solver's stopping tolerance (see opd_case)
 FAMS = [('standard', 'ZernikeStandard', 'std'), ('noll', 'ZernikeNoll', 'noll'), ('fringe', 'ZernikeFringe', 'fringe')]
 IMPORTS = 'From OV Require Import Spec.S_C10 Model.M_C10 Gen.Zernike.'
 
@@ -523,9 +525,21 @@ def opd_case(spec, field, wavelength, fam, N, rings):
     res_ref = A @ ref - z
     zn = float(np.linalg.norm(z)) or 1.0
     colnorm = np.linalg.norm(A, axis=0)
+    coef_scale = float(np.max(np.abs(ref))) or 1.0
+    smin = float(np.linalg.svd(A, compute_uv=False)[-1])
+    r_ref = float(np.linalg.norm(res_ref))
+    # tolerances derived from the statement, not tuned: the fitted series must reproduce the samples "up to the truncation
+    # residual" r* = min_c |A c - z| (numpy lstsq).  least_squares stops when the relative cost reduction drops below
+    # ftol = 1e-8, so its cost may exceed the optimum by O(ftol): |r_fit|^2 <= |r*|^2 (1 + K ftol), K = 100 (measured
+    # worst case over the seed sweep: 1e-8).  By Pythagoras |A (c_fit - c*)| <= sqrt(K ftol) |r*|, which bounds the
+    # normal equations  |a_j . r_fit| / (|a_j| |z|) <= sqrt(K ftol) |r*| / |z|  and the coefficient difference
+    # |c_fit - c*| <= sqrt(K ftol) |r*| / sigma_min(A).  1e-6 / 1e-7 are the floors for (near-)exact fits (xtol = 1e-8).
+    s_tol = math.sqrt(SOLVER_K * SOLVER_FTOL)
     return {'family': fam, 'N': N, 'M': int(z.size), 'same_data': bool(np.array_equal(zo.z, z) and np.array_equal(zo.x, x) and np.array_equal(zo.y, y)),
-            'len_ok': len(chat) == N, 'coef_scale': float(np.max(np.abs(ref))) or 1.0, 'chat': chat, 'ref': ref,
-            'res_fit': float(np.linalg.norm(res_fit)) / zn, 'res_ref': float(np.linalg.norm(res_ref)) / zn,
+            'len_ok': len(chat) == N, 'coef_scale': coef_scale, 'chat': chat, 'ref': ref,
+            'res_fit': float(np.linalg.norm(res_fit)) / zn, 'res_ref': r_ref / zn,
+            'tol_res_rel': SOLVER_K * SOLVER_FTOL, 'tol_res_abs': 1e-7,
+            'tol_ne': 1e-6 + s_tol * r_ref / zn, 'tol_coef': 1e-6 + s_tol * r_ref / (max(smin, 1e-300) * coef_scale),
             'normal_eq': (A.T @ res_fit) / (colnorm * zn), 'cond': float(np.linalg.cond(A)), 'rms_opd': float(np.sqrt(np.mean(z ** 2)))}
 
 
@@ -556,9 +570,11 @@ def check_opd(ctx):
         sc = c['coef_scale']
         lines.append(' && '.join([
             'true' if (c['same_data'] and c['len_ok']) else 'false',
-            f'close_list {vlib.fhex(1e-6)} {vlib.flist(c["chat"] / sc)} {vlib.flist(c["ref"] / sc)}' if c['len_ok'] else 'false',
-            f'(PrimFloat.leb {vlib.fhex(c["res_fit"])} (PrimFloat.add {vlib.fhex(c["res_ref"])} {vlib.fhex(1e-7)}))',
-            f'close_list {vlib.fhex(1e-6)} {vlib.flist(c["normal_eq"])} {vlib.flist([0.0] * len(c["normal_eq"]))}']))
+            f'close_list {vlib.fhex(c["tol_coef"])} {vlib.flist(c["chat"] / sc)} {vlib.flist(c["ref"] / sc)}' if c['len_ok'] else 'false',
+            # |r_fit| <= |r*| (1 + K ftol) + floor     (both relative to |z|)
+            f'(PrimFloat.leb {vlib.fhex(c["res_fit"])} (PrimFloat.add (PrimFloat.mul {vlib.fhex(c["res_ref"])} '
+            f'{vlib.fhex(1.0 + c["tol_res_rel"])}) {vlib.fhex(c["tol_res_abs"])}))',
+            f'close_list {vlib.fhex(c["tol_ne"])} {vlib.flist(c["normal_eq"])} {vlib.flist([0.0] * len(c["normal_eq"]))}']))
     if not lines:
         out['error'] = 'no ZernikeOPD case could be generated'
         return [out]
@@ -580,7 +596,8 @@ def check_opd(ctx):
             'spec': c['spec'], 'field': c['field'], 'wavelength': c['wavelength'], 'num_rings': c['num_rings'],
             'same_data': c['same_data'], 'relative_residual_fit': c['res_fit'], 'relative_residual_lstsq': c['res_ref'],
             'max_normal_equation': float(np.max(np.abs(c['normal_eq']))),
-            'max_coeff_difference': float(np.max(np.abs(c['chat'] - c['ref'])) / c['coef_scale']) if c['len_ok'] else None})
+            'max_coeff_difference': float(np.max(np.abs(c['chat'] - c['ref'])) / c['coef_scale']) if c['len_ok'] else None,
+            'tolerances': {k: c[k] for k in ('tol_res_rel', 'tol_res_abs', 'tol_ne', 'tol_coef')}})
     return [out]
 
 
